@@ -6,6 +6,9 @@ HOOKS = {
     "add_only": True,
 }
 ENGINES = [
+    {"name": "schema-pool", "path": "vlib/schemagen.py, vlib/model.py, vlib/drivergen.py, vlib/pool.py, vlib/poolcheck.py, harness/driver_rt.hpp",
+     "serves_properties": ["C01", "C02", "C03", "C04", "C05", "C06", "C07", "C08", "C10", "C11", "C17", "C18", "C19"],
+     "kind_free_text": "Hypothesis schema generator + independent Python reference model + per-schema generated C++ driver (persistent process, guard pages, assertion handler) built by the tree's sbeppc in g++/clang++ x C++11..23"},
     {"name": "libfuzzer-sbeppc", "path": "harness/fuzz_sbeppc.cpp + vlib/checks/c09.py", "serves_properties": ["C09"],
      "kind_free_text": "libFuzzer target wrapping sbeppc's main (macro rename) with an XML structure-aware custom mutator and an in-target oracle; Hypothesis argv generator"},
     {"name": "faultinject", "path": "harness/faultinject.c + vlib/checks/c20.py", "serves_properties": ["C20"],
@@ -14,7 +17,32 @@ ENGINES = [
 NOTES = "Technique family: property-based testing and fuzzing (Hypothesis, rapidcheck, libFuzzer, exhaustive small-scope enumeration, fault enumeration). See DESIGN.md."
 _NOT_BUILT = "check not built yet in this session (designed in DESIGN.md section 4); not claimed until its machinery exists and passes on the unchanged tree"
 NOT_APPLICABLE = {("C%02d" % i): _NOT_BUILT for i in range(1, 21)}
+_POOL_NOTE = "Trusted base: the Python reference model (vlib/model.py) written from the SBE rules; g++ 12.2 / clang 14 with libstdc++ 12 stand for gcc/clang; schema shapes are those of the generator (DESIGN 3.2) with small images (<= 3 entries per group instance, data <= 24 bytes)."
 CHECKS = {
+    "C02": {
+        "engine": "schema-pool",
+        "category": "exploration",
+        "text": "Two-level generated search: Hypothesis generates valid schemas (all primitive types, both byte orders, custom offsets/blockLengths, refs, inline composites, constants, optional/required, nested groups, data, every unsigned header/dimension/length type), the tree's sbeppc compiles them and a generated driver is built in rotating compiler x standard configs (union covers g++/clang++ x C++11..23); then per case a message image is produced by an independent Python encoder from a generated value tree (boundary-biased raw bit patterns incl. NaN payloads) and the driver's dump of every named getter (random access, cursor traversal, visit) must equal the tree bit-exactly in every config. Failures shrink at case level. Exploration is the right level: the property quantifies over all schemas and images.",
+        "design_ref": "DESIGN.md 3.2-3.5, 4 (C02)",
+        "note": _POOL_NOTE + " Constant evaluation (constexpr) is not yet exercised by this check.",
+        "technique": "property-based differential testing against an independent reference encoder (Hypothesis, two-level schema/case generation)",
+    },
+    "C03": {
+        "engine": "schema-pool",
+        "category": "exploration",
+        "text": "As C02, but every image is encoded with independently inflated wire block lengths (root block and every group instance, as a newer schema version would produce); random-access, cursor and visit dumps must all equal the value tree, group headers must report the wire blockLength and the cursor must end at the wire size.",
+        "design_ref": "DESIGN.md 4 (C03)",
+        "note": _POOL_NOTE,
+        "technique": "property-based differential testing against an independent reference encoder with schema-extension inflation",
+    },
+    "C07": {
+        "engine": "schema-pool",
+        "category": "exploration",
+        "text": "The pool build is the check: for Hypothesis-generated valid schemas (clash-prone fixed identifier pool; a second pool with text that needs escaping and odd numeric literal forms) sbeppc exit 0 must imply that every generated header compiles on its own and that a generated touch-everything TU (every accessor in getter/setter/cursor form, fillers, visitors, size functions, reached only through schema names and documented paths) compiles, in g++/clang++ x C++11..23 (3 rotating configs per schema in quick, all 10 in thorough). A failing schema is shrunk by Hypothesis. Entities named like the generator's own identifiers are probed separately (known finding).",
+        "design_ref": "DESIGN.md 3.2, 3.5, 4 (C07)",
+        "note": "Compiler exit status is the oracle; macro names and reserved identifiers are outside the name pool; only g++ 12.2 / clang 14 with libstdc++ 12.",
+        "technique": "property-based generation of schemas with compile-success oracle (Hypothesis)",
+    },
     "C09": {
         "engine": "libfuzzer-sbeppc",
         "category": "exploration",
